@@ -95,7 +95,8 @@ class AGen:
         import threading
         if self.running:
             raise AbsRaise("ValueError: generator already executing")
-        it = self.interp
+        it = Interp.ACTIVE if Interp.ACTIVE is not None else self.interp
+        self.interp = it                       # the body goes on in the evaluator that resumes it
         self.msg = msg
         self.base_depth = it.depth
         it.depth = self.base_depth + self.own_depth
@@ -318,6 +319,22 @@ class FuncRef:
         self.raw = raw           # the function body itself, below its decorators
 
 
+class AProperty:
+    """property(fget, fset) created at run time and stored on a class."""
+    def __init__(self, fget: Any = None, fset: Any = None, doc: Any = None) -> None:
+        self.fget, self.fset, self.doc = fget, fset, doc
+
+
+class AClassMethod:
+    def __init__(self, func: Any) -> None:
+        self.func = func
+
+
+class AStaticMethod:
+    def __init__(self, func: Any) -> None:
+        self.func = func
+
+
 class Dispatcher:
     """functools.singledispatch / singledispatchmethod object of the function `base`."""
     def __init__(self, base: FuncInfo, method: bool) -> None:
@@ -394,10 +411,13 @@ class Interp:
 
     TOP_CALLS = 0          # top-level evaluations in this process (reported in evidence)
     TOTAL_STEPS = 0
+    ACTIVE: Any = None     # the evaluator whose top-level call is in progress
+    LAST: Any = None       # the evaluator created last (used when a stand-in is called outside any top-level call)
 
     def __init__(self, pm: ProgramModel, max_depth: int = 14,
                  native: Optional[dict[str, Callable[..., Any]]] = None) -> None:
         self.pm = pm
+        Interp.LAST = self
         self.max_depth = max_depth
         self.depth = 0
         self.steps = 0
@@ -415,6 +435,11 @@ class Interp:
         """Standard-library callables the analysed code uses, as pure functions."""
         import itertools as _it
         import statistics as _st
+        real = self
+        # what these stand-ins return (partial objects, attrgetters, context managers ...) can be kept in process-wide state
+        # (a module constant, a class attribute, a decorated function) and used by a later evaluator instance: they work on
+        # whichever evaluator is running when they are called, not on the one that created them
+        self = _ACTIVE  # type: ignore[assignment]
 
         def prod(xs: Any, start: Any = 1) -> Any:
             r = start
@@ -632,7 +657,8 @@ class Interp:
             "functools.reduce": reduce,
             "itertools.groupby": groupby,
             "itertools.permutations": lambda xs, k=None: iter(list(_it.permutations(list(self.iterate(xs)), k))),
-            "itertools.accumulate": lambda xs, f=None: iter(list(_acc(self, xs, f))),
+            "itertools.accumulate": lambda xs, func=None, *, initial=None: _acc(         # lazy: the source may be endless
+                self, xs if initial is None else _it.chain([initial], self.iterate(xs)), func),
             "itertools.islice": lambda xs, *a: _it.islice(iter(self.iterate(xs)), *a),
             "itertools.zip_longest": lambda *xs, fillvalue=None: iter(list(_it.zip_longest(*[list(self.iterate(x)) for x in xs], fillvalue=fillvalue))),
             "itertools.repeat": lambda x, k=None: iter([x] * k) if k is not None else _it.repeat(x),
@@ -642,6 +668,21 @@ class Interp:
             "itertools.filterfalse": lambda f, xs: iter([x for x in self.iterate(xs) if not self.truth(self._apply(f, x) if f is not None else x)]),
             "itertools.chain.from_iterable": lambda xs: _it.chain.from_iterable(map(self.iterate, self.iterate(xs))),
             "functools.partial": partial,
+            "dataclasses.asdict": lambda o: self._dc_asdict(o),
+            "dataclasses.astuple": lambda o: tuple(self._dc_asdict(o).values()),
+            "dataclasses.replace": lambda o, **ch: self._dc_replace(o, ch),
+            "dataclasses.is_dataclass": lambda o: isinstance(o, AObj) and o._f.get("_record") is not None or
+            (isinstance(o, ClassRef) and (self.pm.record_kind(o.ci) or ("",))[0] == "dataclass"),
+            "contextlib.contextmanager": lambda f: raw(lambda *a, **k: self._as_cm(self.apply_value(f, list(a), dict(k), ast.Constant(value=None), "", None))),
+            "itertools.compress": lambda data, sel: iter([d_ for d_, s_ in zip(self.iterate(data), self.iterate(sel)) if self.truth(s_)]),
+            "itertools.pairwise": lambda xs: iter(list(_it.pairwise(list(self.iterate(xs))))),
+            "itertools.batched": lambda xs, k: iter([tuple(b_) for b_ in _batched(list(self.iterate(xs)), k)]),
+            "itertools.tee": lambda xs, k=2: tuple(iter(list(c_)) for c_ in [list(self.iterate(xs))] * k),
+            "types.MethodType": lambda f, obj: self._bind_callable(f, obj),
+            "sys.intern": lambda x: x,
+            "abc.update_abstractmethods": lambda c: c,
+            "functools.update_wrapper": lambda w, f, *a, **k: self._copy_wrapper_attrs(w, f),
+            "functools.wraps": lambda f, *a, **k: raw(lambda w: self._copy_wrapper_attrs(w, f)),
             "statistics.mean": mean,
             "statistics.median": median,
             "logging.warning": lambda *a, **k: None,
@@ -650,12 +691,31 @@ class Interp:
             "logging.debug": lambda *a, **k: None,
         }
         for k, v in d.items():
-            self.native.setdefault(k, v)
+            real.native.setdefault(k, v)
 
     # -- entry -------------------------------------------------------------------------------
     def call(self, fi: FuncInfo, args: list[Any], kwargs: Optional[dict[str, Any]] = None,
              skip_native: bool = False, raw: bool = False) -> Any:
+        if self.depth == 0 and Interp.ACTIVE is not self:
+            prev = Interp.ACTIVE
+            Interp.ACTIVE = self
+            try:
+                return self.call(fi, args, kwargs, skip_native, raw)
+            finally:
+                Interp.ACTIVE = prev
         kwargs = kwargs or {}
+        if getattr(fi, "dyn_value", None) is not None:
+            dv = fi.dyn_value           # type: ignore[attr-defined]
+            if isinstance(dv, AClassMethod) and args and not isinstance(args[0], ClassRef):
+                args = [ClassRef(fi.cls)] + list(args[1:]) if fi.cls is not None else args
+            dv = dv.func if isinstance(dv, (AStaticMethod, AClassMethod)) else dv
+            if isinstance(dv, tuple) and len(dv) == 2 and dv[0] == "descriptor":
+                # a descriptor / callable object stored in the class body: what `obj.name` gives, called with the rest
+                if not args:
+                    raise AbsRaise(f"TypeError: {fi.name}() missing the object it is called on")
+                bound = self.getattr(args[0], fi.name, fi.node, None)
+                return self.apply_value(bound, list(args[1:]), kwargs, fi.node, loc(fi.unit.path, fi.node), None)
+            return self.apply_value(dv, list(args), kwargs, fi.node, loc(fi.unit.path, fi.node), None)
         if fi.qual in self.native and not skip_native:
             return self.native[fi.qual](*args, **kwargs)
         if not raw and fi.node.decorator_list:
@@ -693,6 +753,7 @@ class Interp:
             self.depth -= 1
             raise AnalysisError("ABSINT", f"inlining bound {self.max_depth} exceeded at {fi.qual}")
         try:
+            self.ensure_module_init(fi.unit)
             env = self._bind(fi, args, kwargs)
             if self._is_generator(fi.node):
                 return self._make_gen(fi.node.body, env, fi, fi.qual)
@@ -704,24 +765,114 @@ class Interp:
         finally:
             self.depth -= 1
 
+    @staticmethod
+    def _exc_kind(exc: AbsRaise) -> str:
+        import re as _re
+        mk = _re.match(r"[A-Za-z_][A-Za-z0-9_.]*", exc.what.strip())
+        return (mk.group(0) if mk else "Exception").split(".")[-1]
+
+    def _exc_type(self, exc: AbsRaise) -> Any:
+        k = self._exc_kind(exc)
+        return ClassRef(self.pm.cls(k)) if self.pm.has_cls(k) else ("exc", k)
+
+    def _gencm_enter(self, cm: "_GenCM", exits: list[Any], where: str) -> Any:
+        """__enter__ / __exit__ of what contextlib.contextmanager makes of a generator."""
+        gen = cm.gen
+        try:
+            val = next(gen)
+        except StopIteration:
+            raise AbsRaise("RuntimeError: generator didn't yield", where) from None
+
+        def leave(exc: Optional[AbsRaise]) -> bool:
+            if exc is None:
+                try:
+                    next(gen)
+                except StopIteration:
+                    return False
+                raise AbsRaise("RuntimeError: generator didn't stop", where)
+            try:
+                gen.throw(exc)
+            except StopIteration:
+                return True                    # the generator caught it and finished: suppressed
+            except AbsRaise as again:
+                if again is exc:
+                    return False               # re-raised as it was: the with statement lets it through
+                raise
+            raise AbsRaise("RuntimeError: generator didn't stop after throw()", where)
+        exits.append(leave)
+        return val
+
+    def _dc_asdict(self, o: Any) -> Any:
+        if isinstance(o, AObj) and o._f.get("_record") is not None:
+            return {k: self._dc_asdict(o._f[k]) for k in o._f["_record"][2]}
+        if isinstance(o, (list, tuple)) and not hasattr(o, "_fields"):
+            return type(o)(self._dc_asdict(x) for x in o)
+        if isinstance(o, dict):
+            return {k: self._dc_asdict(x) for k, x in o.items()}
+        if isinstance(o, AObj):
+            raise AbsRaise("TypeError: asdict() should be called on dataclass instances")
+        return o
+
+    def _dc_replace(self, o: Any, changes: dict[str, Any]) -> Any:
+        if not (isinstance(o, AObj) and o._f.get("_record") is not None and self.pm.has_cls(o._cls)):
+            raise AbsRaise("TypeError: replace() should be called on dataclass instances")
+        ci = self.pm.cls(o._cls)
+        rk = self.pm.record_kind(ci)
+        init_names = [n for n, d in self.pm.record_fields(ci)
+                      if not (isinstance(d, ast.Call) and ast.unparse(d.func) in ("field", "dataclasses.field") and
+                              any(k.arg == "init" and isinstance(k.value, ast.Constant) and k.value.value is False for k in d.keywords))]
+        kw = {n: o._f[n] for n in init_names}
+        for k in changes:
+            if k not in init_names:
+                raise AbsRaise(f"TypeError: {o._cls}.__init__() got an unexpected keyword argument {k!r}")
+        kw.update(changes)
+        return self.make_record(ci, rk, AObj(ci.name, _complete=True), [], kw, "")  # type: ignore[arg-type]
+
+    def _fmt_wrap(self, x: Any) -> Any:
+        """A value as %-formatting / str.format see it: objects of the analysed code answer with their own __str__ / __repr__."""
+        if isinstance(x, (AObj, EnumVal)) or (isinstance(x, tuple) and hasattr(x, "_fields") and self.pm.has_cls(type(x).__name__)):
+            return _FmtView(self, x)
+        return x
+
+    def _as_cm(self, gen: Any) -> "_GenCM":
+        if not isinstance(gen, AGen):
+            raise AbsRaise("TypeError: the function given to contextmanager is not a generator function")
+        return _GenCM(gen)
+
+    def _copy_wrapper_attrs(self, w: Any, f: Any) -> Any:
+        """functools.wraps / update_wrapper: name, qualname, doc and the attribute dictionary of f appear on w."""
+        if isinstance(w, (LocalFunc, FuncRef, BoundMethod)):
+            node_ = ast.Constant(value=None)
+            for a_ in ("__name__", "__qualname__", "__doc__", "__module__"):
+                try:
+                    w.attrs[a_] = self.getattr(f, a_, node_, None)
+                except (AbsRaise, AnalysisError):
+                    pass
+            if isinstance(f, (LocalFunc, FuncRef, BoundMethod)):
+                for k_, v_ in f.attrs.items():
+                    w.attrs.setdefault(k_, v_)
+            w.attrs["__wrapped__"] = f
+        return w
+
     def _make_gen(self, body: list[ast.stmt], env: dict[str, Any], fi: Optional[FuncInfo], label: str,
                   after: Optional[Callable[[], None]] = None) -> AGen:
         """Calling a generator function binds its arguments and returns the generator; the body runs when it is advanced."""
         def run(gen: AGen) -> Any:
             env["__gen__"] = gen
-            self.depth += 1
-            if self.depth > self.deepest:
-                self.deepest = self.depth
+            me = gen.interp                      # the evaluator that advances the generator
+            me.depth += 1
+            if me.depth > me.deepest:
+                me.deepest = me.depth
             try:
-                if self.depth > self.max_depth:
-                    raise AnalysisError("ABSINT", f"inlining bound {self.max_depth} exceeded at generator {label}")
+                if me.depth > me.max_depth:
+                    raise AnalysisError("ABSINT", f"inlining bound {me.max_depth} exceeded at generator {label}")
                 try:
-                    self.exec_block(body, env, fi)
+                    me.exec_block(body, env, fi)
                 except _Return as r:
                     return r.value
                 return None
             finally:
-                self.depth -= 1
+                gen.interp.depth -= 1
                 if after is not None:
                     after()
         return AGen(self, run, label)
@@ -739,11 +890,14 @@ class Interp:
 
     def eval_call_class(self, ci: ClassInfo, args: Optional[list[Any]] = None) -> Any:
         """Construct an abstract instance by evaluating the class's __init__ from source."""
-        init = self.pm.method(ci, "__init__")
-        obj = AObj(ci.name, _complete=True)
-        if init is not None:
-            self.call(init, [obj] + list(args or []))
-        return obj
+        if self.depth == 0 and Interp.ACTIVE is not self:
+            prev = Interp.ACTIVE
+            Interp.ACTIVE = self
+            try:
+                return self.eval_call_class(ci, args)
+            finally:
+                Interp.ACTIVE = prev
+        return self.apply_value(ClassRef(ci), list(args or []), {}, ast.Constant(value=None), "", None)
 
     def call_local(self, f: "LocalFunc", args: list[Any], kwargs: dict[str, Any]) -> Any:
         if f.cached:
@@ -971,24 +1125,59 @@ class Interp:
             return
         if isinstance(st, ast.With):
             swallow: set[str] = set()
-            for item in st.items:
-                v = self.eval(item.context_expr, env, fi)
-                if isinstance(v, _Suppress):
-                    swallow |= v.kinds
-                    v = None
-                elif isinstance(v, AObj):
-                    raise AnalysisError("ABSINT", f"with-statement over an object of the analysed code ({src(item.context_expr)}) "
-                                                  f"outside fragment", loc(fi.unit.path, st) if fi else "")
-                if item.optional_vars is not None:
-                    self.assign(item.optional_vars, v, env, fi)
+            exits: list[Callable[[Optional[AbsRaise]], bool]] = []
+            wh = loc(fi.unit.path, st) if fi else ""
+
+            def unwind(pending: Optional[AbsRaise]) -> Optional[AbsRaise]:
+                for ex in reversed(exits):           # innermost first; an exit may swallow or replace the exception
+                    try:
+                        if ex(pending):
+                            pending = None
+                    except AbsRaise as e2:
+                        pending = e2
+                return pending
+            try:
+                for item in st.items:
+                    v = self.eval(item.context_expr, env, fi)
+                    if isinstance(v, _Suppress):
+                        swallow |= v.kinds
+                        v = None
+                    elif isinstance(v, _GenCM):
+                        v = self._gencm_enter(v, exits, wh)
+                    elif isinstance(v, AObj):
+                        en_, ex_ = self.special(v, "__enter__"), self.special(v, "__exit__")
+                        if en_ is None or ex_ is None:
+                            raise AbsRaise(f"TypeError: '{v._cls}' object does not support the context manager protocol", wh)
+                        mgr = v
+                        v = self.apply_value(en_, [mgr], {}, st, wh, fi)
+                        exits.append(lambda exc, _m=mgr, _x=ex_: self.truth(self.apply_value(
+                            _x, [_m] + ([None, None, None] if exc is None else [self._exc_type(exc), exc, None]), {}, st, wh, fi)))
+                    if item.optional_vars is not None:
+                        self.assign(item.optional_vars, v, env, fi)
+            except AbsRaise as exc:
+                left = unwind(exc)                   # a later item failed to enter: the earlier ones are exited
+                if left is not None:
+                    raise left
+                return
             try:
                 self.exec_block(st.body, env, fi)
             except AbsRaise as exc:
-                import re as _re
-                mk = _re.match(r"[A-Za-z_][A-Za-z0-9_.]*", exc.what.strip())
-                kind_ = (mk.group(0) if mk else "Exception").split(".")[-1]
-                if not (({kind_} | _EXC_PARENTS.get(kind_, {"Exception"})) & swallow):
-                    raise
+                left = unwind(exc)
+                if left is None:
+                    return
+                if not (({self._exc_kind(left)} | _EXC_PARENTS.get(self._exc_kind(left), {"Exception"})) & swallow):
+                    if left is exc:
+                        raise
+                    raise left
+                return
+            except (_Return, _Break, _Continue):
+                left = unwind(None)
+                if left is not None:
+                    raise left
+                raise
+            left = unwind(None)
+            if left is not None:
+                raise left
             return
         if isinstance(st, ast.Try):
             try:
@@ -1032,15 +1221,19 @@ class Interp:
                     return
             return
         if isinstance(st, ast.FunctionDef):
-            cached = False
-            for d_ in st.decorator_list:
+            lf = LocalFunc(st, env, fi, self._def_defaults(st.args, env, fi), False)
+            cur_f: Any = lf
+            for d_ in reversed(st.decorator_list):
                 dn = ast.unparse(d_).split("(")[0]
-                if dn in _CACHE_DECORATORS:
-                    cached = True
-                else:
-                    raise AnalysisError("ABSINT", f"decorator {dn} on a nested function outside fragment",
-                                        loc(fi.unit.path, st) if fi else "")
-            env[st.name] = LocalFunc(st, env, fi, self._def_defaults(st.args, env, fi), cached)
+                if dn in _CACHE_DECORATORS and cur_f is lf:
+                    lf.cached = True
+                    continue
+                if dn in ("staticmethod", "classmethod", "property"):
+                    cur_f = self.builtin(dn, [cur_f], {}, d_, loc(fi.unit.path, st) if fi else "")
+                    continue
+                dec_v = self.eval(d_, env, fi)
+                cur_f = self.apply_value(dec_v, [cur_f], {}, d_, loc(fi.unit.path, st) if fi else "", fi)
+            env[st.name] = cur_f
             return
         if isinstance(st, ast.Import):
             for a in st.names:
@@ -1106,8 +1299,9 @@ class Interp:
             elif isinstance(obj, (LocalFunc, FuncRef, BoundMethod)):
                 obj.attrs[t.attr] = v
             elif isinstance(obj, ClassRef):
-                GLOBAL_STATE["class_attrs"][(obj.ci.qual, t.attr)] = v     # visible process-wide
-                obj.ci.class_attrs.setdefault(t.attr, ast.Constant(value=None))
+                self.set_class_attr(obj.ci, t.attr, v)
+            elif isinstance(obj, EnumVal):
+                GLOBAL_STATE["modconst"].setdefault(("enumattrs", obj.cls, obj.name), {})[t.attr] = v
             else:
                 raise AnalysisError("ABSINT", f"attribute store outside fragment: {src(t)}")
         elif isinstance(t, ast.Subscript):
@@ -1137,7 +1331,18 @@ class Interp:
             raise AnalysisError("ALG", "a symbolic count is used as a truth value")
         if isinstance(v, OrdInt):
             raise AnalysisError("CARD", f"ordinal {v.tag} used as truth value")
-        if isinstance(v, (AObj, EnumVal, BoundMethod, FuncRef, ClassRef)):
+        if isinstance(v, (AObj, EnumVal)):
+            b_ = self.special(v, "__bool__")
+            if b_ is not None and not (isinstance(b_, FuncRef) and b_.fi.unit.env):
+                r_ = self.apply_value(b_, [v], {}, ast.Constant(value=None), "", None)
+                if not isinstance(r_, bool):
+                    raise AbsRaise(f"TypeError: __bool__ should return bool, returned {type(r_).__name__}")
+                return r_
+            l_ = self.special(v, "__len__")
+            if l_ is not None and not (isinstance(l_, FuncRef) and l_.fi.unit.env):
+                return self.apply_value(l_, [v], {}, ast.Constant(value=None), "", None) != 0
+            return True
+        if isinstance(v, (BoundMethod, FuncRef, ClassRef)):
             return True
         return bool(v)
 
@@ -1159,7 +1364,19 @@ class Interp:
                 or isinstance(v, type({}.items())):
             return v
         if isinstance(v, ClassRef) and self.pm.is_enum(v.ci):
-            return [EnumVal(v.ci.name, k, val) for k, val in self.pm.enum_members(v.ci).items()]
+            return [m for k, m in self.enum_table(v.ci).items() if m.name == k]      # aliases are not iterated
+        if isinstance(v, AObj):
+            it_m = self.special(v, "__iter__")
+            if it_m is not None:
+                r_ = self.apply_value(it_m, [v], {}, ast.Constant(value=None), "", None)
+                if isinstance(r_, AObj):
+                    if self.special(r_, "__next__") is None:
+                        raise AbsRaise(f"TypeError: iter() returned non-iterator of type '{r_._cls}'")
+                    return AObjIter(self, r_)
+                return self.iterate(r_)
+            gi = self.special(v, "__getitem__")
+            if gi is not None:
+                return _getitem_iter(self, v, gi)
         raise AnalysisError("ABSINT", f"iteration over non-iterable abstract value {v!r}")
 
     def eval(self, n: ast.expr, env: dict[str, Any], fi: Optional[FuncInfo]) -> Any:  # noqa: C901
@@ -1255,10 +1472,30 @@ class Interp:
                 lo = self.eval(n.slice.lower, env, fi) if n.slice.lower else None
                 hi = self.eval(n.slice.upper, env, fi) if n.slice.upper else None
                 stp = self.eval(n.slice.step, env, fi) if n.slice.step else None
-                return obj[lo:hi:stp]
+                if isinstance(obj, AObj):
+                    gi_ = self.special(obj, "__getitem__")
+                    if gi_ is None:
+                        raise AbsRaise(f"TypeError: '{obj._cls}' object is not subscriptable", loc(fi.unit.path, n) if fi else "")
+                    return self.apply_value(gi_, [obj, slice(lo, hi, stp)], {}, n, loc(fi.unit.path, n) if fi else "", fi)
+                try:
+                    return obj[lo:hi:stp]
+                except TypeError as exc:
+                    raise AbsRaise(f"TypeError at {src(n)}", loc(fi.unit.path, n) if fi else "") from exc
             if isinstance(obj, tuple) and len(obj) == 2 and obj[0] == "builtin":
                 return obj           # list["X"] -> list
             idx = self.eval(n.slice, env, fi)
+            if isinstance(obj, AObj):
+                gi_ = self.special(obj, "__getitem__")
+                if gi_ is None:
+                    raise AbsRaise(f"TypeError: '{obj._cls}' object is not subscriptable", loc(fi.unit.path, n) if fi else "")
+                return self.apply_value(gi_, [obj, idx], {}, n, loc(fi.unit.path, n) if fi else "", fi)
+            if isinstance(obj, ClassRef):
+                if self.pm.is_enum(obj.ci):
+                    tab_ = self.enum_table(obj.ci)
+                    if idx not in tab_:
+                        raise AbsRaise(f"KeyError: {idx!r}", loc(fi.unit.path, n) if fi else "")
+                    return tab_[idx]
+                return obj           # Generic[T] subscription of a class
             if isinstance(obj, dict):
                 idx = self.canon_key(obj, idx)
             try:
@@ -1371,6 +1608,10 @@ class Interp:
                 self._comp(gens, i + 1, env, fi, emit)
 
     def to_str(self, v: Any) -> str:
+        if isinstance(v, tuple) and hasattr(v, "_fields") and self.pm.has_cls(type(v).__name__):
+            sm = self.class_lookup(self.pm.cls(type(v).__name__), "__str__")
+            if sm is not None and sm[0] == "method":
+                return self.call(sm[1], [v])
         if isinstance(v, OrdInt):
             return f"{{{v.tag}}}"
         if isinstance(v, EnumVal):
@@ -1383,9 +1624,9 @@ class Interp:
                     return str(v.value)
             return f"{v.cls}.{v.name}"
         if isinstance(v, AObj):
-            m = self.pm.method(self.pm.cls(v._cls), "__str__") if self.pm.has_cls(v._cls) else None
+            m = self.special(v, "__str__") or self.special(v, "__repr__")
             if m is not None:
-                return self.call(m, [v])
+                return self.apply_value(m, [v], {}, ast.Constant(value=None), "", None)
             raise AnalysisError("ABSINT", f"str() of abstract {v._cls} without __str__")
         return str(v)
 
@@ -1454,6 +1695,9 @@ class Interp:
             if isinstance(op, ast.Mult):
                 return a * b
             if isinstance(op, ast.Mod):
+                if isinstance(a, str):
+                    b = tuple(self._fmt_wrap(x) for x in b) if isinstance(b, tuple) and not hasattr(b, "_fields") else \
+                        ({k: self._fmt_wrap(x) for k, x in b.items()} if isinstance(b, dict) else self._fmt_wrap(b))
                 return a % b
             if isinstance(op, ast.FloorDiv):
                 return a // b
@@ -1496,13 +1740,17 @@ class Interp:
                 if not isinstance(a, str):
                     raise AbsRaise(f"TypeError at {src(n)}")
                 r = a in b
+            elif isinstance(b, AObj) and self.special(b, "__contains__") is not None:
+                r = self.truth(self.apply_value(self.special(b, "__contains__"), [b, a], {}, n, "", None))
             else:
-                r = any(self._eq(a, x) for x in self.iterate(b))
+                r = any(a is x or self._eq(a, x) for x in self.iterate(b))
             return r if isinstance(op, ast.In) else not r
         if isinstance(op, (ast.Eq, ast.NotEq)):
             r = self._eq(a, b)
             return r if isinstance(op, ast.Eq) else not r
         f = _CMP[type(op)]
+        if isinstance(a, (AObj, EnumVal)) or isinstance(b, (AObj, EnumVal)):
+            return self._order(op, a, b, n)
         if isinstance(a, OrdInt) or isinstance(b, OrdInt):
             if isinstance(b, OrdInt) and not isinstance(a, OrdInt):
                 # const OP ord  ==  ord OP' const
@@ -1515,6 +1763,54 @@ class Interp:
         except TypeError as exc:
             raise AbsRaise(f"TypeError at {src(n)}") from exc
 
+    _RICH = {ast.Lt: ("__lt__", "__gt__", "<"), ast.LtE: ("__le__", "__ge__", "<="), ast.Gt: ("__gt__", "__lt__", ">"),
+             ast.GtE: ("__ge__", "__le__", ">=")}
+
+    def _order(self, op: ast.cmpop, a: Any, b: Any, n: ast.AST) -> bool:
+        """a < b and friends when an object of the analysed code takes part: its own method, the reflected method of the
+        other operand, what functools.total_ordering or dataclass(order=True) derive."""
+        name, refl, sym = self._RICH[type(op)]
+        for x, y, nm in ((a, b, name), (b, a, refl)):
+            if isinstance(x, (AObj, EnumVal)):
+                r = self._rich(x, y, nm)
+                if r is not NotImplemented:
+                    return self.truth(r)
+        ta = a._cls if isinstance(a, AObj) else (a.cls if isinstance(a, EnumVal) else type(a).__name__)
+        tb = b._cls if isinstance(b, AObj) else (b.cls if isinstance(b, EnumVal) else type(b).__name__)
+        raise AbsRaise(f"TypeError: '{sym}' not supported between instances of '{ta}' and '{tb}' at {src(n)}")
+
+    def _rich(self, x: Any, y: Any, nm: str) -> Any:
+        m = self.special(x, nm)
+        if m is not None and not (isinstance(m, FuncRef) and m.fi.unit.env):
+            r = self.apply_value(m, [x, y], {}, ast.Constant(value=None), "", None)
+            if not (isinstance(r, tuple) and r == ("builtin", "NotImplemented")):
+                return r
+            return NotImplemented
+        ci = self.pm.cls(x._cls) if isinstance(x, AObj) and self.pm.has_cls(x._cls) else None
+        if ci is not None and any(ast.unparse(d).split("(")[0].split(".")[-1] == "total_ordering"
+                                  for c in self.pm.mro(ci) for d in c.node.decorator_list):
+            lt = self.special(x, "__lt__")
+            if lt is None or (isinstance(lt, FuncRef) and lt.fi.unit.env) or nm == "__lt__":
+                if nm != "__lt__" and any(self.special(x, o_) is not None for o_ in ("__le__", "__gt__", "__ge__")):
+                    raise AnalysisError("ABSINT", f"total_ordering of {ci.name} rooted in a method other than __lt__: outside fragment")
+                return NotImplemented
+            less = self.apply_value(lt, [x, y], {}, ast.Constant(value=None), "", None)
+            if isinstance(less, tuple) and less == ("builtin", "NotImplemented"):
+                return NotImplemented
+            less = self.truth(less)
+            if nm == "__le__":
+                return less or self._eq(x, y)
+            if nm == "__gt__":
+                return not less and not self._eq(x, y)
+            return not less
+        rec = x._f.get("_record") if isinstance(x, AObj) else None
+        if rec is not None and rec[1].get("order") and isinstance(y, AObj) and y._cls == x._cls:
+            ka, kb = [x._f[k] for k in rec[0]], [y._f[k] for k in rec[0]]
+            lt_ = self._lt(ka, kb)
+            eq_ = self._eq(ka, kb)
+            return {"__lt__": lt_, "__le__": lt_ or eq_, "__gt__": not lt_ and not eq_, "__ge__": not lt_}[nm]
+        return NotImplemented
+
     def _eq(self, a: Any, b: Any) -> bool:
         if isinstance(a, ClassRef) or isinstance(b, ClassRef):
             na = a.ci.name if isinstance(a, ClassRef) else getattr(a, "__name__", None)
@@ -1524,13 +1820,29 @@ class Interp:
             return a == b
         if isinstance(b, OrdInt):
             return b == a
+        if isinstance(a, EnumVal) != isinstance(b, EnumVal):
+            e_, o_ = (a, b) if isinstance(a, EnumVal) else (b, a)
+            if isinstance(o_, (str, int, float)) and self.pm.has_cls(e_.cls) and \
+                    self.pm.base_names(self.pm.cls(e_.cls)) & {"str", "int", "StrEnum", "IntEnum", "IntFlag"}:
+                return e_.value == o_            # a member of a str / int mixed-in enumeration is that value too
+            if isinstance(o_, AObj):
+                pass
+            else:
+                return False
         if isinstance(a, AObj) and isinstance(b, AObj):
             if a is b:
                 return True
             if self.pm.has_cls(a._cls):
-                m = self.pm.method(self.pm.cls(a._cls), "__eq__")
-                if m is not None and not m.unit.env:
-                    return self.truth(self.call(m, [a, b]))
+                m = self.special(a, "__eq__")
+                if m is not None and not (isinstance(m, FuncRef) and m.fi.unit.env):
+                    r_ = self.apply_value(m, [a, b], {}, ast.Constant(value=None), "", None)
+                    if isinstance(r_, tuple) and r_ == ("builtin", "NotImplemented"):
+                        m2 = self.special(b, "__eq__")
+                        if m2 is not None and not (isinstance(m2, FuncRef) and m2.fi.unit.env):
+                            r_ = self.apply_value(m2, [b, a], {}, ast.Constant(value=None), "", None)
+                        if isinstance(r_, tuple) and r_ == ("builtin", "NotImplemented"):
+                            return False
+                    return self.truth(r_)
             ra, rb = a._f.get("_record"), b._f.get("_record")
             if ra is not None and rb is not None and a._cls == b._cls and ra[1].get("eq", True):
                 return all(self._eq(a._f[n], b._f[n]) for n in ra[0])
@@ -1539,9 +1851,10 @@ class Interp:
             # the object's own __eq__ decides (it is also asked about values of other types)
             o, other = (a, b) if isinstance(a, AObj) else (b, a)
             if self.pm.has_cls(o._cls) and not isinstance(other, (AObjProxy,)) and not is_native(other):
-                m = self.pm.method(self.pm.cls(o._cls), "__eq__")
-                if m is not None and not m.unit.env:
-                    return self.truth(self.call(m, [o, other]))
+                m = self.special(o, "__eq__")
+                if m is not None and not (isinstance(m, FuncRef) and m.fi.unit.env):
+                    r_ = self.apply_value(m, [o, other], {}, ast.Constant(value=None), "", None)
+                    return False if (isinstance(r_, tuple) and r_ == ("builtin", "NotImplemented")) else self.truth(r_)
             return False
         if isinstance(a, (list, tuple)) and isinstance(b, (list, tuple)) and type(a) is type(b):
             return len(a) == len(b) and all(self._eq(x, y) for x, y in zip(a, b))
@@ -1602,7 +1915,38 @@ class Interp:
             cache[key] = names
         return cache[key]
 
+    def ensure_module_init(self, u: Unit) -> None:
+        """Statements at module level other than definitions and plain assignments (calls that register something, loops
+        that fill a table, conditionals) run once, in order, when the module is first used."""
+        key = ("modinit", u.mod)
+        store = GLOBAL_STATE["class_attrs"]
+        if key in store:
+            return
+        store[key] = True
+        if u.env:
+            return
+        extra = [s_ for s_ in u.tree.body
+                 if isinstance(s_, (ast.For, ast.While, ast.If, ast.With, ast.Try, ast.AugAssign, ast.Delete, ast.Match, ast.ClassDef))
+                 or (isinstance(s_, ast.Expr) and not isinstance(s_.value, ast.Constant))]
+        if not extra:
+            return
+        fake = FuncInfo(f"{u.mod}.<module>", "<module>", ast.FunctionDef(name="<module>"), u)  # type: ignore
+        env: dict[str, Any] = {}
+        for s_ in extra:
+            if isinstance(s_, ast.ClassDef):
+                # the class statement runs now: hooks that register the class somewhere (__init_subclass__, class
+                # decorators, __set_name__) take effect at import time, in source order, whether or not the class is used
+                q_ = f"{u.mod}.{s_.name}"
+                if q_ in self.pm.classes:
+                    self.ensure_built(self.pm.classes[q_])
+                continue
+            self.exec_stmt(s_, env, fake)
+        for k_, v_ in env.items():
+            if not k_.startswith("__"):
+                self._modconst[(u.mod, k_)] = v_
+
     def module_name(self, u: Unit, name: str) -> Any:
+        self.ensure_module_init(u)
         key = (u.mod, name)
         if key in self._modconst:
             return self._modconst[key]
@@ -1656,20 +2000,59 @@ class Interp:
                 for c in self.pm.mro(obj.fi.cls)[1:]:
                     if attr in c.methods:
                         return BoundMethod(obj.obj, c.methods[attr])
+            if attr == "__setattr__" and isinstance(obj.obj, AObj):
+                tgt_ = obj.obj
+
+                def super_store(name_: str, val_: Any) -> None:
+                    if tgt_._f.get("_frozen"):
+                        raise AbsMutation(f"super().__setattr__({tgt_._cls}, {name_!r})", where)
+                    self.setattr_obj(tgt_, name_, val_, where, direct=True)
+                super_store._raw = True  # type: ignore[attr-defined]
+                return super_store
             return SuperProxy(obj.obj, obj.fi)      # base outside the program model: no-op call
         if isinstance(obj, AObj):
+            found: Any = None
             if self.pm.has_cls(obj._cls) and attr not in ("_frozen", "_complete"):
-                pm_ = self.pm.method(self.pm.cls(obj._cls), attr)
-                if pm_ is not None and "property" in pm_.decorators():
-                    return self.call(pm_, [obj])         # a property (data descriptor) comes before the instance's own fields
+                ci0 = self.pm.cls(obj._cls)
+                self.ensure_built(ci0)
+                found = self.class_lookup(ci0, attr)
+                if found is not None and found[0] == "method" and "property" in found[1].decorators():
+                    return self.call(found[1], [obj])    # a property (data descriptor) comes before the instance's own fields
+                if found is not None and found[0] == "value":
+                    cv0 = found[1]
+                    if isinstance(cv0, AProperty):
+                        if cv0.fget is None:
+                            raise AbsRaise(f"AttributeError: property '{attr}' of '{obj._cls}' object has no getter", where)
+                        return self.apply_value(cv0.fget, [obj], {}, n, where, fi)
+                    if isinstance(cv0, AObj) and self.special(cv0, "__get__") is not None and \
+                            (self.special(cv0, "__set__") is not None or attr not in obj._f):
+                        # a descriptor object stored on the class (data descriptors come before the instance's fields)
+                        return self.apply_value(self.special(cv0, "__get__"), [cv0, obj, ClassRef(ci0)], {}, n, where, fi)
             if attr in obj._f:
                 obj._reads.add(attr)
                 return obj._f[attr]
             if attr == "__class__" and self.pm.has_cls(obj._cls):
                 return ClassRef(self.pm.cls(obj._cls))
+            if attr == "__dict__":
+                return obj._f                  # the instance's own fields (live)
             if self.pm.has_cls(obj._cls):
                 ci = self.pm.cls(obj._cls)
-                m = self.pm.method(ci, attr)
+                m = found[1] if found is not None and found[0] == "method" else None
+                if found is not None and found[0] == "value":
+                    cv = found[1]
+                    if isinstance(cv, FuncRef) and not cv.fi.is_static():
+                        return BoundMethod(obj, cv.fi, cv.attrs)     # a function stored on the class binds
+                    if isinstance(cv, LocalFunc):
+                        return BoundWrapper(obj, cv)
+                    if isinstance(cv, Lambda):
+                        return self._bind_callable(cv, obj)
+                    if isinstance(cv, AClassMethod):
+                        return self._bind_callable(cv.func, ClassRef(ci))
+                    if isinstance(cv, AStaticMethod):
+                        return cv.func
+                    if callable(cv) and getattr(cv, "_binds", False):
+                        return self._bind_callable(cv, obj)
+                    return cv
                 if m is not None:
                     if "property" in m.decorators():
                         return self.call(m, [obj])
@@ -1687,14 +2070,10 @@ class Interp:
                         if isinstance(w_, LocalFunc):
                             return BoundWrapper(obj, w_)       # the name is bound to what the decorator returned
                     return BoundMethod(obj, m, self.decorated_attrs(m))
-                for c in self.pm.mro(ci):
-                    if attr in c.class_attrs:
-                        cv = self.class_attr(c, attr)
-                        if isinstance(cv, FuncRef) and not cv.fi.is_static():
-                            return BoundMethod(obj, cv.fi, cv.attrs)     # a function stored on the class binds
-                        if isinstance(cv, (Lambda, LocalFunc)):
-                            return self._bind_callable(cv, obj)
-                        return cv
+                ga = self.class_lookup(ci, "__getattr__")
+                if ga is not None and attr not in ("__getattr__", "_frozen", "_complete"):
+                    gav = FuncRef(ga[1]) if ga[0] == "method" else ga[1]
+                    return self.apply_value(gav, [obj, attr], {}, n, where, fi)
             if obj._f.get("_complete"):
                 raise AbsRaise(f"AttributeError: '{obj._cls}' object has no attribute '{attr}'", where)
             raise AnalysisError("ABSINT", f"observation {obj._cls}.{attr} is outside the abstract "
@@ -1703,15 +2082,55 @@ class Interp:
             raise AbsRaise(f"AttributeError: None.{attr} at {src(n)}", where)
         if isinstance(obj, ClassRef):
             ci = obj.ci
+            self.ensure_built(ci)
             if self.pm.is_enum(ci):
-                mem = self.pm.enum_members(ci)
-                if attr in mem:
-                    return EnumVal(ci.name, attr, mem[attr])
-            for c in self.pm.mro(ci):
-                if attr in c.class_attrs:
-                    return self.class_attr(c, attr)
-                if attr in c.methods:
-                    return FuncRef(c.methods[attr])
+                tab = self.enum_table(ci)
+                if attr in tab:
+                    return tab[attr]
+                if attr in ("__members__", "_member_map_"):
+                    return dict(tab)
+                if attr == "_member_names_":
+                    return [k for k, v_ in tab.items() if v_.name == k]
+                if attr == "_value2member_map_":
+                    return {v_.value: v_ for k, v_ in tab.items() if v_.name == k}
+            found = self.class_lookup(ci, attr)
+            if found is not None and found[0] == "method":
+                m_ = found[1]
+                if m_.is_classmethod():
+                    return BoundMethod(obj, m_, self.decorated_attrs(m_))
+                return FuncRef(m_)
+            if found is not None:
+                cv = found[1]
+                if isinstance(cv, AClassMethod):
+                    return self._bind_callable(cv.func, obj)
+                if isinstance(cv, AStaticMethod):
+                    return cv.func
+                if isinstance(cv, AObj) and self.special(cv, "__get__") is not None:
+                    return self.apply_value(self.special(cv, "__get__"), [cv, None, obj], {}, n, where, fi)
+                return cv
+            rk0 = self.pm.record_kind(ci)
+            if rk0 is not None and rk0[0] == "namedtuple":
+                if attr == "_fields":
+                    return tuple(n_ for n_, _ in self.pm.record_fields(ci))
+                if attr == "_make":
+                    mk_ = lambda xs: self.apply_value(obj, list(self.iterate(xs)), {}, n, where, fi)  # noqa: E731
+                    mk_._raw = True  # type: ignore[attr-defined]
+                    return mk_
+                if attr == "_field_defaults":
+                    return {n_: self.class_attr(ci, n_) for n_, d_ in self.pm.record_fields(ci) if d_ is not None}
+            if attr == "__mro__":
+                return tuple(ClassRef(c) for c in self.pm.mro(ci)) + (("builtin", "object"),)
+            if attr in ("__qualname__",):
+                return ci.name
+            if attr == "__module__":
+                return ci.unit.mod
+            if attr == "__dict__":
+                d_: dict[str, Any] = {}
+                for k_ in list(ci.class_attrs) + list(ci.methods):
+                    fnd = self.class_lookup(ci, k_)
+                    if fnd is not None and fnd[2] is ci:
+                        d_[k_] = FuncRef(fnd[1]) if fnd[0] == "method" else fnd[1]
+                return d_
             for q, c2 in self.pm.classes.items():
                 if c2.outer is ci and c2.name == attr:
                     return ClassRef(c2)
@@ -1732,6 +2151,17 @@ class Interp:
                 raise AbsRaise("AttributeError: function has no attribute __wrapped__", where)
             raise AbsRaise(f"AttributeError: function has no attribute {attr}", where)
         if isinstance(obj, (BoundMethod, FuncRef)):
+            if attr == "register" and obj.fi.node.decorator_list and isinstance(self.wrapper_of(obj.fi), Dispatcher):
+                base_fi = obj.fi
+
+                def register(cls_: Any, func: Any = None) -> Any:
+                    def deco(f_: Any) -> Any:
+                        GLOBAL_STATE["class_attrs"].setdefault(("dispatch", base_fi.qual), []).append((cls_, f_))
+                        return f_
+                    deco._raw = True  # type: ignore[attr-defined]
+                    return deco if func is None else deco(func)
+                register._raw = True  # type: ignore[attr-defined]
+                return register
             if attr == "__name__":
                 return obj.fi.name
             if attr == "__doc__":
@@ -1744,10 +2174,36 @@ class Interp:
                 return obj.value
             if attr == "name":
                 return obj.name
+            extra_ = GLOBAL_STATE["modconst"].get(("enumattrs", obj.cls, obj.name), {})
+            if attr in extra_:
+                return extra_[attr]
             if self.pm.has_cls(obj.cls):
                 eci = self.pm.cls(obj.cls)
+                if attr == "__class__":
+                    return ClassRef(eci)
+                if attr == "_value_":
+                    return obj.value
+                if attr == "_name_":
+                    return obj.name
+                fnd = self.class_lookup(eci, attr)
+                if fnd is not None and fnd[0] == "value" and not isinstance(fnd[1], EnumVal):
+                    cv = fnd[1]
+                    if isinstance(cv, (LocalFunc,)):
+                        return BoundWrapper(obj, cv)
+                    if isinstance(cv, Lambda) or (isinstance(cv, FuncRef) and not cv.fi.is_static()):
+                        return self._bind_callable(cv, obj)
+                    return cv
+                if fnd is not None and fnd[0] == "value":
+                    return fnd[1]                # another member reached through a member, as Python allows
                 m = self.pm.method(eci, attr)
                 if m is not None and not m.unit.env:
+                    if any(d.split(".")[-1] == "cached_property" for d in m.decorators()):
+                        slot_ = GLOBAL_STATE["modconst"].setdefault(("enumattrs", obj.cls, obj.name), {})
+                        if f"_cached:{attr}" not in slot_:
+                            slot_[f"_cached:{attr}"] = self.call(m, [obj])
+                        return slot_[f"_cached:{attr}"]
+                    if m.is_classmethod():
+                        return BoundMethod(ClassRef(eci), m, self.decorated_attrs(m))
                     if "property" in m.decorators():
                         return self.call(m, [obj])
                     if m.is_static():
@@ -1763,8 +2219,26 @@ class Interp:
             if full in self.native and not callable(self.native[full]):
                 return self.native[full]
             return ModuleRef(full)
-        if isinstance(obj, tuple) and len(obj) == 2 and obj[0] == "builtin" and attr in ("__name__", "__qualname__"):
+        if isinstance(obj, tuple) and len(obj) == 2 and obj[0] in ("builtin", "exc") and attr in ("__name__", "__qualname__"):
             return obj[1]
+        if isinstance(obj, tuple) and len(obj) == 2 and obj == ("builtin", "object") and attr in (
+                "__setattr__", "__init__", "__init_subclass__", "__getattribute__", "__delattr__"):
+            if attr == "__setattr__":
+                def direct_store(o_: Any, name_: str, val_: Any) -> None:
+                    if not isinstance(o_, AObj):
+                        raise AnalysisError("ABSINT", "object.__setattr__ on a value that is not an object of the analysed code", where)
+                    if o_._f.get("_frozen"):
+                        raise AbsMutation(f"object.__setattr__({o_._cls}, {name_!r})", where)
+                    self.setattr_obj(o_, name_, val_, where, direct=True)
+                direct_store._raw = True  # type: ignore[attr-defined]
+                return direct_store
+            if attr == "__getattribute__":
+                ga_ = lambda o_, name_: self.getattr(o_, name_, n, fi)  # noqa: E731
+                ga_._raw = True  # type: ignore[attr-defined]
+                return ga_
+            noop = lambda *a, **k: None  # noqa: E731
+            noop._raw = True  # type: ignore[attr-defined]
+            return noop
         if isinstance(obj, tuple) and len(obj) == 2 and obj[0] == "builtin" and obj[1] in ("str", "bytes") \
                 and (attr in _STR_METHODS or attr == "maketrans"):
             pyt = str if obj[1] == "str" else bytes
@@ -1785,6 +2259,22 @@ class Interp:
             return lambda keys, value=None: {k: value for k in self.dedupe(self.iterate(keys))}
         if isinstance(obj, tuple) and attr in getattr(obj, "_fields", ()):
             return getattr(obj, attr)
+        if isinstance(obj, tuple) and hasattr(obj, "_fields") and self.pm.has_cls(type(obj).__name__):
+            nci = self.pm.cls(type(obj).__name__)
+            fnd = self.class_lookup(nci, attr)
+            if fnd is not None and fnd[0] == "method":
+                m_ = fnd[1]
+                if "property" in m_.decorators():
+                    return self.call(m_, [obj])
+                if m_.is_static():
+                    return FuncRef(m_)
+                if m_.is_classmethod():
+                    return BoundMethod(ClassRef(nci), m_)
+                return BoundMethod(obj, m_)
+            if fnd is not None and attr not in getattr(obj, "_fields", ()):
+                return fnd[1]
+            if attr == "__class__":
+                return ClassRef(nci)
         if isinstance(obj, tuple) and hasattr(obj, "_fields") and attr in ("_replace", "_asdict", "_fields"):
             return getattr(obj, attr)
         if isinstance(obj, (str, bytes, list, dict, set, tuple, frozenset)):
@@ -1856,8 +2346,22 @@ class Interp:
     def apply_value(self, f: Any, args: list[Any], kwargs: dict[str, Any], n: ast.AST, where: str,
                     fi: Optional[FuncInfo]) -> Any:  # noqa: C901
         """Call of an already evaluated callee (also used for callables passed as values)."""
+        if self.depth == 0 and Interp.ACTIVE is not self:
+            prev = Interp.ACTIVE
+            Interp.ACTIVE = self
+            try:
+                return self.apply_value(f, args, kwargs, n, where, fi)
+            finally:
+                Interp.ACTIVE = prev
         if isinstance(f, BoundMethod):
             return self.call(f.fi, [f.obj] + args, kwargs)
+        if isinstance(f, AObj):
+            cm_ = self.special(f, "__call__")
+            if cm_ is None:
+                raise AbsRaise(f"TypeError: '{f._cls}' object is not callable", where)
+            return self.apply_value(cm_, [f] + list(args), kwargs, n, where, fi)
+        if isinstance(f, AStaticMethod):
+            return self.apply_value(f.func, args, kwargs, n, where, fi)
         if isinstance(f, FuncRef):
             if f.fi.cls is not None and not f.fi.is_static() and f.fi.is_classmethod():
                 return self.call(f.fi, [ClassRef(f.fi.cls)] + args, kwargs, raw=f.raw)
@@ -1874,11 +2378,22 @@ class Interp:
             hook = self.native.get(f"new:{f.ci.name}")
             if hook is not None:
                 return hook(*args, **kwargs)
+            self.ensure_built(f.ci)
             if self.pm.is_enum(f.ci) and len(args) == 1:
-                for k, val in self.pm.enum_members(f.ci).items():
-                    if val == args[0]:
-                        return EnumVal(f.ci.name, k, val)
+                if isinstance(args[0], EnumVal) and args[0].cls == f.ci.name:
+                    return args[0]
+                for k, m_ in self.enum_table(f.ci).items():
+                    if self._eq(m_.value, args[0]) and (type(m_.value) is type(args[0]) or not isinstance(args[0], bool)
+                                                       and not isinstance(m_.value, bool)):
+                        return m_
                 raise AbsRaise(f"ValueError: {args[0]!r} is not a valid {f.ci.name}", where)
+            init_f = self.class_lookup(f.ci, "__init__")
+            if init_f is not None and init_f[0] == "value":
+                obj = AObj(f.ci.name, _complete=True)
+                if fi is not None:
+                    self.sites.add((fi.unit.path, getattr(n, "lineno", 0), f.ci.name))
+                self.apply_value(init_f[1], [obj] + args, kwargs, n, where, fi)
+                return obj
             init = self.pm.method(f.ci, "__init__")
             obj = AObj(f.ci.name, _complete=True)
             if fi is not None:
@@ -1929,6 +2444,9 @@ class Interp:
             if isinstance(obj, (str, bytes)) and attr in _STR_METHODS:
                 if attr == "join":
                     args = [list(self.iterate(args[0]))]
+                if attr == "format":
+                    args = [self._fmt_wrap(x) for x in args]
+                    kwargs = {k: self._fmt_wrap(x) for k, x in kwargs.items()}
                 try:
                     return getattr(obj, attr)(*args, **kwargs)
                 except (TypeError, ValueError, UnicodeError) as exc:
@@ -2045,6 +2563,24 @@ class Interp:
                 where: str) -> Any:
         if name == "object":
             return Native() if not args else (_ for _ in ()).throw(AbsRaise("TypeError: object() takes no arguments", where))
+        if name == "format":
+            v = args[0]
+            spec = args[1] if len(args) > 1 else ""
+            if isinstance(v, (AObj, OrdInt, EnumVal)):
+                if spec:
+                    raise AnalysisError("ABSINT", "format() with a spec on an abstract value", where)
+                return self.to_str(v)
+            try:
+                return format(v, spec)
+            except (ValueError, TypeError) as exc:
+                raise AbsRaise(f"{type(exc).__name__}: {exc}", where) from exc
+        if name == "property":
+            return AProperty(args[0] if args else kwargs.get("fget"), args[1] if len(args) > 1 else kwargs.get("fset"),
+                             args[3] if len(args) > 3 else kwargs.get("doc"))
+        if name == "staticmethod":
+            return AStaticMethod(args[0])
+        if name == "classmethod":
+            return AClassMethod(args[0])
         if name == "slice":
             return slice(*args)
         if name == "len":
@@ -2053,6 +2589,13 @@ class Interp:
                 return len(v)  # type: ignore[arg-type]
             if isinstance(v, AObj) and "_len" in v._f:
                 return v._f["_len"]
+            if isinstance(v, (AObj, EnumVal)) or (isinstance(v, ClassRef) and self.pm.is_enum(v.ci)):
+                if isinstance(v, ClassRef):
+                    return len(self.iterate(v))
+                lm = self.special(v, "__len__")
+                if lm is None:
+                    raise AbsRaise(f"TypeError: object of type '{v._cls if isinstance(v, AObj) else v.cls}' has no len()", where)
+                return self.apply_value(lm, [v], {}, n, where, None)
             if isinstance(v, (list, tuple, set, dict, str, frozenset)) or \
                     isinstance(v, type({}.keys())):
                 ln = len(v)
@@ -2063,10 +2606,44 @@ class Interp:
             if isinstance(v, (bytes, bytearray, range)) or type(v).__name__ in ("dict_values", "dict_items", "Counter", "deque"):
                 return len(v)
             raise AnalysisError("ABSINT", f"len() of {type(v).__name__}", where)
+        if name == "issubclass":
+            c_, t = args
+            ts = t if isinstance(t, tuple) and not (len(t) == 2 and t[0] in ("builtin", "exc")) else (t,)
+            for tt in ts:
+                if isinstance(tt, tuple) and tt[0] == "builtin" and tt[1] == "object":
+                    return True
+                if isinstance(c_, ClassRef) and isinstance(tt, ClassRef):
+                    if tt.ci in self.pm.mro(c_.ci):
+                        return True
+                elif isinstance(c_, ClassRef) and isinstance(tt, tuple) and tt[0] == "exc":
+                    if tt[1] in self.pm.base_names(c_.ci) or tt[1] in ("Exception", "BaseException") and \
+                            self.pm.base_names(c_.ci) & {"Exception", "FlamaException"}:
+                        return True
+                elif isinstance(c_, tuple) and isinstance(tt, tuple) and c_[0] in ("exc", "builtin") and tt[0] in ("exc", "builtin"):
+                    if c_[1] == tt[1] or tt[1] in _EXC_PARENTS.get(c_[1], {"Exception"}) or tt[1] == "BaseException":
+                        return True
+                    if c_[0] == "builtin" and tt[0] == "builtin" and c_[1] in _BUILTIN_TYPES and tt[1] in _BUILTIN_TYPES \
+                            and issubclass(_BUILTIN_TYPES[c_[1]], _BUILTIN_TYPES[tt[1]]):
+                        return True
+                elif isinstance(c_, type) and isinstance(tt, type):
+                    if issubclass(c_, tt):
+                        return True
+            return False
         if name == "isinstance":
             v, t = args
-            ts = t if isinstance(t, tuple) and not (len(t) == 2 and t[0] == "builtin") else (t,)
+            ts = t if isinstance(t, tuple) and not (len(t) == 2 and t[0] in ("builtin", "exc")) else (t,)
             for tt in ts:
+                if isinstance(tt, type) and not isinstance(v, (AObj, OrdInt, EnumVal)):
+                    if isinstance(v, tt):
+                        return True
+                    continue
+                if isinstance(tt, tuple) and len(tt) == 2 and tt[0] == "exc":
+                    if isinstance(v, AbsRaise) and (self._exc_kind(v) == tt[1] or tt[1] in _EXC_PARENTS.get(self._exc_kind(v), {"Exception"})
+                                                    or tt[1] == "BaseException"):
+                        return True
+                    if isinstance(v, AExc) and (v.kind == tt[1] or tt[1] in _EXC_PARENTS.get(v.kind, {"Exception"})):
+                        return True
+                    continue
                 if isinstance(tt, tuple) and tt[0] == "builtin" and tt[1] == "object":
                     return True
                 if isinstance(tt, ClassRef) and isinstance(v, tuple) and type(v).__name__ == tt.ci.name \
@@ -2101,6 +2678,13 @@ class Interp:
                 tot = tot + (int(x) if isinstance(x, bool) else x)
             return tot
         if name == "next":
+            if isinstance(args[0], AObj) and self.special(args[0], "__next__") is not None:
+                try:
+                    return self.apply_value(self.special(args[0], "__next__"), [args[0]], {}, n, where, None)
+                except AbsRaise as exc:
+                    if len(args) > 1 and exc.what.strip().split("(")[0].split(":")[0].strip() == "StopIteration":
+                        return args[1]
+                    raise
             if not hasattr(args[0], "__next__"):
                 raise AbsRaise(f"TypeError: '{type(args[0]).__name__}' object is not an iterator", where)
             for x in args[0]:
@@ -2127,7 +2711,9 @@ class Interp:
         if name == "str":
             return self.to_str(args[0]) if args else ""
         if name == "bool":
-            return self.truth(args[0])
+            return self.truth(args[0]) if args else False
+        if name in ("int", "float") and not args:
+            return 0 if name == "int" else 0.0
         if name == "int":
             if isinstance(args[0], OrdInt):
                 return args[0]
@@ -2174,6 +2760,10 @@ class Interp:
             return repr(args[0]) if not isinstance(args[0], (AObj, EnumVal)) else self.to_str(args[0])
         if name == "type":
             v = args[0]
+            if isinstance(v, AbsRaise):
+                return self._exc_type(v)
+            if isinstance(v, AExc):
+                return ClassRef(self.pm.cls(v.kind)) if self.pm.has_cls(v.kind) else ("exc", v.kind)
             if isinstance(v, AObj) and self.pm.has_cls(v._cls):
                 return ClassRef(self.pm.cls(v._cls))
             if is_native(v) and self.pm.has_cls(type(v).__name__):
@@ -2188,6 +2778,9 @@ class Interp:
         if name == "iter":
             if hasattr(args[0], "__next__"):
                 return args[0]
+            if isinstance(args[0], AObj):
+                r_ = self.iterate(args[0])
+                return r_ if hasattr(r_, "__next__") else iter(r_)
             if isinstance(args[0], list):
                 return iter(args[0])          # live view of the list, as in Python
             return iter(list(self.iterate(args[0])))
@@ -2201,7 +2794,20 @@ class Interp:
             if isinstance(v, AObj):
                 if a in v._f:
                     return True
-                return self.pm.has_cls(v._cls) and self.pm.method(self.pm.cls(v._cls), a) is not None
+                if not self.pm.has_cls(v._cls):
+                    return False
+                self.ensure_built(self.pm.cls(v._cls))
+                if self.class_lookup(self.pm.cls(v._cls), a) is not None:
+                    return True
+                if self.class_lookup(self.pm.cls(v._cls), "__getattr__") is not None:
+                    try:
+                        self.getattr(v, a, n, None)
+                        return True
+                    except AbsRaise as exc:
+                        if self._exc_kind(exc) == "AttributeError":
+                            return False
+                        raise
+                return False
             if isinstance(v, (BoundMethod, FuncRef)):
                 return a in v.attrs or a in ("__name__", "__doc__")
             if isinstance(v, (LocalFunc, BoundWrapper)):
@@ -2217,6 +2823,12 @@ class Interp:
                 if v._f.get("_frozen"):
                     raise AbsMutation(f"setattr({v._cls}, {a!r})", where)
                 self.setattr_obj(v, a, val, where)
+                return None
+            if isinstance(v, ClassRef):
+                self.set_class_attr(v.ci, a, val)
+                return None
+            if isinstance(v, EnumVal):
+                GLOBAL_STATE["modconst"].setdefault(("enumattrs", v.cls, v.name), {})[a] = val
                 return None
             raise AnalysisError("ABSINT", "setattr outside fragment", where)
         if name == "getattr":
@@ -2318,6 +2930,21 @@ class Interp:
                     kwargs: dict[str, Any], where: str) -> Any:
         """Instance of a @dataclass / NamedTuple class: __init__ synthesised from the annotated fields."""
         fields = self.pm.record_fields(ci)
+        no_init: list[tuple[str, ast.expr]] = []
+        if rk[0] == "dataclass":
+            keep = []
+            for n_, d_ in fields:
+                if isinstance(d_, ast.Call) and ast.unparse(d_.func) in ("field", "dataclasses.field") and \
+                        any(k.arg == "init" and isinstance(k.value, ast.Constant) and k.value.value is False for k in d_.keywords):
+                    no_init.append((n_, d_))
+                else:
+                    keep.append((n_, d_))
+                if isinstance(d_, ast.Call) and ast.unparse(d_.func) in ("field", "dataclasses.field") and \
+                        any(k.arg in ("kw_only",) for k in d_.keywords):
+                    raise AnalysisError("ABSINT", f"dataclass field option kw_only on {ci.name}.{n_}: outside fragment", where)
+            fields = keep
+            if rk[1].get("kw_only") or rk[1].get("slots"):
+                raise AnalysisError("ABSINT", f"dataclass option kw_only / slots on {ci.name}: outside fragment", where)
         names = [n for n, _ in fields]
         if len(args) > len(names):
             raise AbsRaise(f"TypeError: {ci.name}() takes {len(names)} positional arguments but {len(args)} were given", where)
@@ -2351,10 +2978,22 @@ class Interp:
             return GLOBAL_STATE["modconst"][key](*[vals[n] for n in names])
         for n in names:
             obj._f[n] = vals[n]
-        obj._f["_record"] = (tuple(names), rk[1])
-        post = self.pm.method(ci, "__post_init__")
+        for n, d in no_init:                          # fields kept out of __init__: their default, if any, is set
+            kw = {k.arg: k.value for k in d.keywords}  # type: ignore[attr-defined]
+            if "default_factory" in kw:
+                obj._f[n] = self.apply_value(self.eval(kw["default_factory"], {}, fake), [], {}, d, where, fake)
+            elif "default" in kw:
+                obj._f[n] = self.eval(kw["default"], {}, fake)
+        allf = [n for n, _ in self.pm.record_fields(ci)]
+        cmpf = tuple(n for n, d in self.pm.record_fields(ci)
+                     if not (isinstance(d, ast.Call) and ast.unparse(d.func) in ("field", "dataclasses.field") and
+                             any(k.arg == "compare" and isinstance(k.value, ast.Constant) and k.value.value is False for k in d.keywords)))
+        obj._f["_record"] = (cmpf, rk[1], tuple(allf))
+        post = self.special(obj, "__post_init__")
         if post is not None:
-            self.call(post, [obj])
+            self.apply_value(post, [obj], {}, ast.Constant(value=None), where, None)
+        if rk[1].get("frozen"):
+            obj._f["_frozen_record"] = True
         return obj
 
     def _match(self, p: ast.pattern, v: Any, binds: dict[str, Any], env: dict[str, Any],
@@ -2395,6 +3034,48 @@ class Interp:
             if star.name is not None:  # type: ignore[attr-defined]
                 binds[star.name] = list(v[i:len(v) - tail])  # type: ignore[attr-defined]
             return True
+        if isinstance(p, ast.MatchMapping):
+            if not isinstance(v, dict):
+                return False
+            used = []
+            for k_e, k_p in zip(p.keys, p.patterns):
+                kk = self.canon_key(v, self.eval(k_e, env, fi))
+                if kk not in v or not self._match(k_p, v[kk], binds, env, fi):
+                    return False
+                used.append(kk)
+            if p.rest is not None:
+                binds[p.rest] = {k: x for k, x in v.items() if not any(k is u or k == u for u in used)}
+            return True
+        if isinstance(p, ast.MatchClass) and p.patterns:
+            t = self.eval(p.cls, env, fi)
+            if isinstance(t, ClassRef):
+                rk_ = self.pm.record_kind(t.ci)
+                explicit = self.class_lookup(t.ci, "__match_args__")
+                if explicit is not None and explicit[0] == "value":
+                    margs: Optional[list[str]] = list(explicit[1])
+                elif rk_ is not None and rk_[0] == "namedtuple":
+                    margs = [n_ for n_, _ in self.pm.record_fields(t.ci)]
+                elif rk_ is not None and rk_[0] == "dataclass" and rk_[1].get("match_args", True):
+                    margs = [n_ for n_, d_ in self.pm.record_fields(t.ci)
+                             if not (isinstance(d_, ast.Call) and ast.unparse(d_.func) in ("field", "dataclasses.field") and
+                                     any(k.arg == "init" and isinstance(k.value, ast.Constant) and k.value.value is False
+                                         for k in d_.keywords))]
+                else:
+                    margs = None
+                if margs is not None:
+                    if not self.builtin("isinstance", [v, t], {}, p, ""):
+                        return False
+                    if len(p.patterns) > len(margs):
+                        raise AbsRaise(f"TypeError: {t.ci.name}() accepts {len(margs)} positional sub-patterns ({len(p.patterns)} given)")
+                    attrs = list(zip(margs, p.patterns)) + list(zip(p.kwd_attrs, p.kwd_patterns))
+                    for an, ap in attrs:
+                        try:
+                            av = self.getattr(v, an, p, fi)
+                        except AbsRaise:
+                            return False
+                        if not self._match(ap, av, binds, env, fi):
+                            return False
+                    return True
         if isinstance(p, ast.MatchClass) and not p.patterns:
             t = self.eval(p.cls, env, fi)
             if not self.builtin("isinstance", [v, t], {}, p, ""):
@@ -2496,8 +3177,18 @@ class Interp:
                     rank = self._specificity(arg, tv)
                     if rank is not None:
                         cands.append((rank, impl))
-        if cands:
-            best = min(r for r, _ in cands)
+        dyn: list[tuple[int, Any]] = []
+        for tv, f_ in GLOBAL_STATE["class_attrs"].get(("dispatch", base.qual), []):
+            types = list(tv) if isinstance(tv, tuple) and not (len(tv) == 2 and tv[0] in ("builtin", "exc")) else [tv]
+            for t1 in types:
+                rank = self._specificity(arg, t1)
+                if rank is not None:
+                    dyn.append((rank, f_))
+        if cands or dyn:
+            best = min(r for r, _ in cands + dyn)
+            chosen_d = [f_ for r, f_ in dyn if r == best]
+            if chosen_d:                     # registrations made by call run after the decorated definitions of the module
+                return self.apply_value(chosen_d[-1], args, kwargs, ast.Constant(value=None), "", None)
             chosen = [f_ for r, f_ in cands if r == best]
             return self.call(chosen[-1], args, kwargs, raw=True)      # a later registration for the same class wins
         return self.call(base, args, kwargs, raw=True)
@@ -2523,17 +3214,37 @@ class Interp:
                 return type(v).__mro__.index(py) if py in type(v).__mro__ else 99
         return 60
 
-    def setattr_obj(self, obj: AObj, attr: str, v: Any, where: str = "") -> None:
-        """obj.attr = v with Python's rule: a property of the class decides (its setter, or AttributeError)."""
+    def setattr_obj(self, obj: AObj, attr: str, v: Any, where: str = "", direct: bool = False) -> None:
+        """obj.attr = v with Python's rules: the class's __setattr__ hook if it has one; else a data descriptor of the
+        class decides (a property's setter or AttributeError, a descriptor object's __set__); else the instance field."""
         if self.pm.has_cls(obj._cls):
             ci = self.pm.cls(obj._cls)
-            getter = self.pm.method(ci, attr)
-            if getter is not None and "property" in getter.decorators():
+            self.ensure_built(ci)
+            if not direct:
+                hook = self.class_lookup(ci, "__setattr__")
+                if hook is not None and not (hook[0] == "method" and hook[1].unit.env):
+                    hv = FuncRef(hook[1]) if hook[0] == "method" else hook[1]
+                    self.apply_value(hv, [obj, attr, v], {}, ast.Constant(value=None), where, None)
+                    return
+                if obj._f.get("_frozen_record"):
+                    raise AbsRaise(f"FrozenInstanceError: cannot assign to field '{attr}'", where)
+            found = self.class_lookup(ci, attr)
+            if found is not None and found[0] == "method" and "property" in found[1].decorators():
                 setter = self.pm.method(ci, attr + ".setter")
                 if setter is None:
                     raise AbsRaise(f"AttributeError: property '{attr}' of '{obj._cls}' object has no setter", where)
                 self.call(setter, [obj, v])
                 return
+            if found is not None and found[0] == "value":
+                cv = found[1]
+                if isinstance(cv, AProperty):
+                    if cv.fset is None:
+                        raise AbsRaise(f"AttributeError: property '{attr}' of '{obj._cls}' object has no setter", where)
+                    self.apply_value(cv.fset, [obj, v], {}, ast.Constant(value=None), where, None)
+                    return
+                if isinstance(cv, AObj) and self.special(cv, "__set__") is not None:
+                    self.apply_value(self.special(cv, "__set__"), [cv, obj, v], {}, ast.Constant(value=None), where, None)
+                    return
         obj._f[attr] = v
 
     def _bind_callable(self, f: Any, obj: Any) -> Any:
@@ -2563,6 +3274,157 @@ class Interp:
                 raise AbsRaise(f"{type(exc).__name__}: {exc}", where) from exc
         run._raw = True  # type: ignore[attr-defined]
         return run
+
+    def class_lookup(self, ci: ClassInfo, attr: str) -> Optional[tuple[str, Any, ClassInfo]]:
+        """Where Python's attribute lookup on the type finds `attr`: ('method', FuncInfo, class) for a function of the
+        class body, ('value', v, class) for any other class-level value - including what was stored on the class later
+        (by a class decorator, __set_name__, __init_subclass__ or plain assignment), which shadows the body."""
+        store = GLOBAL_STATE["class_attrs"]
+        for c in self.pm.mro(ci):
+            if (c.qual, attr) in store and (attr not in c.methods or (c.qual, attr, "dyn") in store):
+                return ("value", store[(c.qual, attr)], c)
+            if attr in c.methods:
+                return ("method", c.methods[attr], c)
+            if attr in c.class_attrs:
+                e_ = c.class_attrs[attr]
+                if isinstance(e_, ast.Call) and ast.unparse(e_.func) in ("field", "dataclasses.field"):
+                    dflt = [k.value for k in e_.keywords if k.arg == "default"]
+                    if not dflt:
+                        continue                   # a dataclass field without a plain default leaves no class attribute
+                    fake = FuncInfo(f"{c.qual}.<class>", "<class>", ast.FunctionDef(name="<class>"), c.unit)  # type: ignore
+                    return ("value", self.eval(dflt[0], {}, fake), c)
+                return ("value", self.class_attr(c, attr), c)
+        return None
+
+    def class_names(self, ci: ClassInfo) -> list[str]:
+        """Names defined on the built class and its package bases: those of the class bodies and those stored later."""
+        self.ensure_built(ci)
+        out: set[str] = set()
+        store = GLOBAL_STATE["class_attrs"]
+        for c in self.pm.mro(ci):
+            if c.unit.env:
+                continue
+            out |= {k for k in c.methods if not k.endswith(".setter")} | set(c.class_attrs)
+            out |= {k[1] for k in store if isinstance(k, tuple) and len(k) == 3 and k[0] == c.qual and k[2] == "dyn"}
+        return sorted(out)
+
+    def set_class_attr(self, ci: ClassInfo, attr: str, v: Any) -> None:
+        store = GLOBAL_STATE["class_attrs"]
+        store[(ci.qual, attr)] = v                 # visible process-wide
+        store[(ci.qual, attr, "dyn")] = True
+        GLOBAL_STATE["lru"].clear() if False else None
+
+    def special(self, obj: Any, name: str) -> Any:
+        """The special method `name` as Python finds it (on the type, not on the instance): a callable value taking the
+        object first, or None."""
+        ci = obj if isinstance(obj, ClassInfo) else (self.pm.cls(obj._cls) if isinstance(obj, AObj) and self.pm.has_cls(obj._cls)
+                                                     else (self.pm.cls(obj.cls) if isinstance(obj, EnumVal) and self.pm.has_cls(obj.cls) else None))
+        if ci is None:
+            return None
+        self.ensure_built(ci)
+        found = self.class_lookup(ci, name)
+        if found is None:
+            return None
+        if found[0] == "method":
+            return None if found[1].unit.env and name in ("__bool__", "__len__", "__iter__", "__next__", "__contains__") \
+                and False else FuncRef(found[1])
+        v = found[1]
+        if isinstance(v, AStaticMethod):
+            return v.func
+        return v
+
+    def ensure_built(self, ci: ClassInfo) -> None:
+        """What happens when the class statement runs, beyond binding the names of its body: __set_name__ of the
+        descriptor objects assigned in the body, __init_subclass__ of the bases (with the class keywords), then the class
+        decorators bottom-up. Done once per process, before the class is first used."""
+        store = GLOBAL_STATE["class_attrs"]
+        key = ("built", ci.qual)
+        if key in store:
+            return
+        store[key] = True
+        if ci.unit.env:
+            return
+        for b in ci.bases:
+            bc = self.pm.resolve_base(ci, b)
+            if bc is not None:
+                self.ensure_built(bc)
+        where = loc(ci.unit.path, ci.node)
+        fake = FuncInfo(f"{ci.qual}.<class>", "<class>", ast.FunctionDef(name="<class>"), ci.unit)  # type: ignore
+        is_enum = self.pm.is_enum(ci)
+        for attr, expr in list(ci.class_attrs.items()):
+            if isinstance(expr, ast.Constant) or is_enum:
+                continue
+            if isinstance(expr, ast.Call):
+                fn_ = expr.func
+                nm_ = fn_.id if isinstance(fn_, ast.Name) else (fn_.attr if isinstance(fn_, ast.Attribute) else None)
+                if nm_ is not None and nm_ in self.pm.class_by_name and not self.pm.cls(nm_).unit.env:
+                    v = self.class_attr(ci, attr)
+                    sn = self.special(v, "__set_name__") if isinstance(v, AObj) else None
+                    if sn is not None:
+                        self.apply_value(sn, [v, ClassRef(ci), attr], {}, expr, where, fake)
+        for c in self.pm.mro(ci)[1:]:
+            isc = c.methods.get("__init_subclass__")
+            if isc is not None and not c.unit.env:
+                kws = {k.arg: self.eval(k.value, {}, fake) for k in ci.node.keywords if k.arg and k.arg != "metaclass"}
+                self.call(isc, [ClassRef(ci)], kws, raw=True)
+                break
+        else:
+            extra = [k.arg for k in ci.node.keywords if k.arg and k.arg != "metaclass"]
+            if extra and not any(self.pm.resolve_base(ci, b) is None for b in ci.bases):
+                pass
+        for d in reversed(ci.node.decorator_list):
+            txt = ast.unparse(d)
+            head = txt.split("(")[0]
+            if head.split(".")[-1] in ("dataclass", "total_ordering", "unique", "final", "runtime_checkable", "verify"):
+                continue
+            try:
+                dec = self.eval(d, {}, fake)
+            except AnalysisError as exc:
+                raise AnalysisError("ABSINT", f"class decorator @{txt} of {ci.name} outside fragment ({exc.reason})", where) from exc
+            res = self.apply_value(dec, [ClassRef(ci)], {}, d, where, fake)
+            if not (isinstance(res, ClassRef) and res.ci is ci):
+                raise AnalysisError("ABSINT", f"class decorator @{txt} of {ci.name} does not return the class: outside fragment", where)
+
+    def enum_table(self, ci: ClassInfo) -> dict[str, "EnumVal"]:
+        """Members of an Enum class by name, in definition order, values evaluated as the class body does (constants,
+        tuples, earlier members, auto()); a name whose value repeats an earlier member's is an alias of that member."""
+        store = GLOBAL_STATE["modconst"]
+        key = ("enum", ci.qual)
+        if key in store:
+            return store[key]
+        fake = FuncInfo(f"{ci.qual}.<class>", "<class>", ast.FunctionDef(name="<class>"), ci.unit)  # type: ignore
+        out: dict[str, EnumVal] = {}
+        raw_vals: dict[str, Any] = {}
+        last_int = 0
+        bases = self.pm.base_names(ci)
+        for c in reversed(self.pm.mro(ci)):
+            for name, expr in c.class_attrs.items():
+                if name.startswith("_"):
+                    continue
+                if isinstance(expr, ast.Constant):
+                    val = expr.value
+                elif isinstance(expr, ast.Call) and ast.unparse(expr.func) in ("auto", "enum.auto") and not expr.args:
+                    val = name.lower() if ("StrEnum" in bases) else last_int + 1
+                else:
+                    try:
+                        val = self.eval(expr, dict(raw_vals), fake)
+                    except AnalysisError as exc:
+                        raise AnalysisError("ABSINT", f"value of enum member {ci.name}.{name} outside fragment ({exc.reason})",
+                                            loc(ci.unit.path, expr)) from exc
+                    if isinstance(val, (AObj, Lambda, LocalFunc, FuncRef, AProperty, AClassMethod, AStaticMethod)):
+                        continue                   # a descriptor / helper, not a member
+                if isinstance(val, int) and not isinstance(val, bool):
+                    last_int = val
+                raw_vals[name] = val
+                first = next((m for m in out.values() if self._eq(m.value, val) and type(m.value) is type(val)), None)
+                out[name] = first if first is not None else EnumVal(ci.name, name, val)
+        store[key] = out
+        init = self.pm.method(ci, "__init__")
+        if init is not None and not init.unit.env:
+            for k, m in out.items():
+                if m.name == k:
+                    self.call(init, [m] + (list(m.value) if isinstance(m.value, tuple) else [m.value]))
+        return out
 
     def class_attr(self, c: ClassInfo, attr: str) -> Any:
         """A class-level value is created once (when the class body runs) and shared by every instance
@@ -2614,9 +3476,13 @@ class Interp:
             return frozenset(self.hash_key(x) for x in v)
         if isinstance(v, AObj):
             if self.pm.has_cls(v._cls):
-                m = self.pm.method(self.pm.cls(v._cls), "__hash__")
-                if m is not None:
-                    return ("obj", v._cls, self.call(m, [v]))
+                self.ensure_built(self.pm.cls(v._cls))
+                fh = self.class_lookup(self.pm.cls(v._cls), "__hash__")
+                if fh is not None and fh[0] == "value" and fh[1] is None:
+                    raise AbsRaise(f"TypeError: unhashable type: '{v._cls}'")
+                if fh is not None:
+                    hv = FuncRef(fh[1]) if fh[0] == "method" else fh[1]
+                    return ("obj", v._cls, self.apply_value(hv, [v], {}, ast.Constant(value=None), "", None))
             rec = v._f.get("_record")
             if rec is not None and rec[1].get("eq", True):
                 if not rec[1].get("frozen") and not rec[1].get("unsafe_hash"):
@@ -2628,13 +3494,8 @@ class Interp:
         return v
 
     def _lt(self, a: Any, b: Any) -> bool:
-        if isinstance(a, AObj) and self.pm.has_cls(a._cls):
-            m = self.pm.method(self.pm.cls(a._cls), "__lt__")
-            if m is None:
-                raise AbsRaise(f"TypeError: '<' not supported between {a._cls} instances")
-            return self.truth(self.call(m, [a, b]))
-        if isinstance(a, AObj) or isinstance(b, AObj):
-            raise AbsRaise("TypeError: '<' between abstract object and value")
+        if isinstance(a, (AObj, EnumVal)) or isinstance(b, (AObj, EnumVal)):
+            return self._order(ast.Lt(), a, b, ast.Constant(value=None))
         if isinstance(a, (tuple, list)) and isinstance(b, (tuple, list)):
             for x, y in zip(a, b):
                 if self._lt(x, y):
@@ -2685,9 +3546,129 @@ _STR_METHODS = {"translate", "expandtabs", "center", "ljust", "rjust", "swapcase
                 "islower", "isnumeric", "removeprefix", "removesuffix"}
 _PURE_MODULES = ("textwrap", "string", "keyword", "unicodedata", "html", "shlex", "math", "itertools", "fnmatch", "posixpath",
                  "statistics", "cmath", "bisect", "heapq")
-_BUILTINS = {"object", "slice", "NotImplemented", "map", "filter", "divmod", "pow", "repr", "type", "iter", "vars", "open", "setattr", "getattr", "dir", "round", "print", "reversed", "hash", "id", "len", "any", "all", "sum", "next", "isinstance", "list", "tuple", "set", "sorted",
+_BUILTINS = {"issubclass", "format", "property", "staticmethod", "classmethod", "object", "slice", "NotImplemented", "map", "filter", "divmod", "pow", "repr", "type", "iter", "vars", "open", "setattr", "getattr", "dir", "round", "print", "reversed", "hash", "id", "len", "any", "all", "sum", "next", "isinstance", "list", "tuple", "set", "sorted",
              "str", "bool", "int", "min", "max", "enumerate", "zip", "range", "hasattr",
              "callable", "float", "abs", "dict", "frozenset", "cast"}
+
+
+class _FmtView:
+    def __init__(self, it: "Interp", v: Any) -> None:
+        self.it, self.v = it, v
+
+    def __str__(self) -> str:
+        return self.it.to_str(self.v)
+
+    def __repr__(self) -> str:
+        return self.it.builtin("repr", [self.v], {}, ast.Constant(value=None), "")
+
+    def __format__(self, spec: str) -> str:
+        if spec:
+            raise AnalysisError("ABSINT", "format spec on an object of the analysed code")
+        return str(self)
+
+    def __getattr__(self, name: str) -> Any:
+        return self.it.getattr(self.v, name, ast.Constant(value=None), None)
+
+
+class DynFunc(FuncInfo):
+    """A method that the class has only once its class statement has run (installed by a class decorator, a descriptor's
+    __set_name__, a base class's __init_subclass__ or an assignment to the class): calls go to the installed value."""
+    dyn_value: Any = None
+
+
+def _dynamic_method(pm: ProgramModel, ci: ClassInfo, name: str, static: Optional[FuncInfo]) -> Optional[FuncInfo]:
+    st = GLOBAL_STATE["class_attrs"]
+    if ("built", ci.qual) not in st:
+        it = Interp.ACTIVE if Interp.ACTIVE is not None and Interp.ACTIVE.pm is pm else \
+            (Interp.LAST if Interp.LAST is not None and Interp.LAST.pm is pm else Interp(pm))
+        it.ensure_built(ci)
+    for c in pm.mro(ci):
+        if (c.qual, name, "dyn") in st:
+            key = ("dynfunc", c.qual, name)
+            v = st[(c.qual, name)]
+            if key not in st or st[key].dyn_value is not v:
+                inner = v.func if isinstance(v, (AStaticMethod, AClassMethod)) else v
+                node = inner.node if isinstance(inner, LocalFunc) else (inner.fi.node if isinstance(inner, (FuncRef, BoundMethod)) else None)
+                if node is None or isinstance(node, ast.Lambda) or not (callable(inner) or isinstance(inner, (LocalFunc, Lambda, FuncRef))):
+                    if not isinstance(inner, (Lambda, LocalFunc, FuncRef)) and not callable(inner):
+                        return static if static is not None and c is not ci and False else None
+                    node = ast.FunctionDef(name=name, args=ast.arguments(posonlyargs=[], args=[], kwonlyargs=[], kw_defaults=[],
+                                                                         defaults=[]), body=[], decorator_list=[], lineno=c.node.lineno,
+                                           col_offset=0)
+                unit = inner.fi.unit if isinstance(inner, (LocalFunc, Lambda, FuncRef)) and inner.fi is not None else c.unit
+                df = DynFunc(f"{c.qual}.{name}", name, node, unit, c)   # type: ignore[arg-type]
+                df.dyn_value = v
+                st[key] = df
+            return st[key]
+        if name in c.methods:
+            return static
+        if name in c.class_attrs and static is None and not isinstance(c.class_attrs[name], ast.Constant):
+            key = ("dynfunc", c.qual, name)
+            if key not in st:
+                it = Interp.ACTIVE if Interp.ACTIVE is not None and Interp.ACTIVE.pm is pm else \
+                    (Interp.LAST if Interp.LAST is not None and Interp.LAST.pm is pm else Interp(pm))
+                fnd = it.class_lookup(c, name)
+                v = fnd[1] if fnd is not None and fnd[0] == "value" else None
+                acts = isinstance(v, (LocalFunc, Lambda, FuncRef)) or \
+                    (isinstance(v, AObj) and (it.special(v, "__get__") is not None or it.special(v, "__call__") is not None))
+                if not acts:
+                    st[key] = None
+                else:
+                    node = v.node if isinstance(v, LocalFunc) else ast.FunctionDef(
+                        name=name, args=ast.arguments(posonlyargs=[], args=[], kwonlyargs=[], kw_defaults=[], defaults=[]),
+                        body=[], decorator_list=[], lineno=getattr(c.class_attrs[name], "lineno", c.node.lineno), col_offset=0)
+                    df = DynFunc(f"{c.qual}.{name}", name, node, c.unit, c)   # type: ignore[arg-type]
+                    df.dyn_value = ("descriptor", v) if isinstance(v, AObj) else v
+                    st[key] = df
+            return st[key]
+    return static
+
+
+ProgramModel.dynamic = staticmethod(_dynamic_method)
+
+
+class _ActiveProxy:
+    """Stands for the evaluator that is running now."""
+    def __getattr__(self, name: str) -> Any:
+        return getattr(Interp.ACTIVE if Interp.ACTIVE is not None else Interp.LAST, name)
+
+
+_ACTIVE = _ActiveProxy()
+
+
+class AObjIter:
+    """Python iterator over an object of the analysed code that implements __next__."""
+    def __init__(self, it: "Interp", obj: AObj) -> None:
+        self.it, self.obj = it, obj
+
+    def __iter__(self) -> "AObjIter":
+        return self
+
+    def __next__(self) -> Any:
+        nx = self.it.special(self.obj, "__next__")
+        try:
+            return self.it.apply_value(nx, [self.obj], {}, ast.Constant(value=None), "", None)
+        except AbsRaise as exc:
+            if exc.what.strip().split("(")[0].split(":")[0].strip() == "StopIteration":
+                raise StopIteration from None
+            raise
+
+
+def _getitem_iter(it: "Interp", obj: AObj, gi: Any) -> Any:
+    i = 0
+    while True:
+        try:
+            yield it.apply_value(gi, [obj, i], {}, ast.Constant(value=None), "", None)
+        except AbsRaise as exc:
+            if exc.what.startswith("IndexError"):
+                return
+            raise
+        i += 1
+
+
+def _batched(xs: list[Any], k: int) -> Any:
+    for i in range(0, len(xs), k):
+        yield xs[i:i + k]
 
 
 def _acc(it: "Interp", xs: Any, f: Any) -> Any:
